@@ -129,11 +129,14 @@ type status = Unknown | Planar | Nonplanar
 let propagate st kind =
   match kind with
   | 'r' | 's' | 'i' | 'p' -> st
-  | 'd' | 'v' -> if st = Planar then Planar else Unknown
+  | 'd' | 'v' | 'c' -> if st = Planar then Planar else Unknown
   | 'a' -> if st = Nonplanar then Nonplanar else Unknown
   | _ -> Unknown
 
 let oracle_max = 10
+(* graphs with more vertices are not given to the model of IsPlanar (second field "-"); the same
+   constant is in harness/cmd/c11/main.go *)
+let model_max = 200
 
 let () =
   try
@@ -163,9 +166,14 @@ let () =
             (match h with
              | Some h when check_model_b h (to_graph g0) sets -> Nonplanar
              | _ -> Unknown) in
+      (* second field: the result of the executable model of IsPlanar (coq/Planar/DmpModel.v) *)
+      let run_model g =
+        if g.n > model_max then "-" else
+        match is_planar_model (to_graph g) with
+        | RT -> "t" | RF -> "f" | RPanic -> "panic" | RFuel -> "fuel" in
       let show g st =
-        Printf.sprintf "%d.%d.%d=%s" g.n (List.length (edges g)) (hash g)
-          (match st with Unknown -> "?" | Planar -> "t" | Nonplanar -> "f") in
+        Printf.sprintf "%d.%d.%d=%s:%s" g.n (List.length (edges g)) (hash g)
+          (match st with Unknown -> "?" | Planar -> "t" | Nonplanar -> "f") (run_model g) in
       let buf = Buffer.create 256 in
       Buffer.add_string buf (show g0 st0);
       let g = ref g0 and st = ref st0 in
